@@ -223,19 +223,27 @@ Definition st_eqv (a b : st) : Prop :=
 
 Definition sp_pin (s : st) (e : N * N) (x : pin) : Prop := In x (pins s) /\ ph x = fst e /\ ptxn x = snd e.
 
-(* the part of the invariant that can be evaluated on an observed state *)
-Record RObs (s : st) (r : arec) : Prop := mkRObs {
+(* the part of the invariant that can be evaluated on an observed state, in two groups:
+   RObsC speaks about the committed view only (pins, latest version, DATA_FREED / unpersisted freed records,
+   unpersisted pages, the two record tables, valid savepoints); RObsW about the live write transaction *)
+Record RObsC (s : st) (r : arec) : Prop := mkRObsC {
   (* a valid savepoint holds a pin at its transaction; handles are unique; ids and transactions grow together *)
   ro_v1 : forall e, In e (valid r) -> exists x, sp_pin s e x;
   ro_v2 : NoDup (map ph (pins s));
   ro_v3 : forall e1 e2, In e1 (valid r) -> In e2 (valid r) -> fst e1 <= fst e2 -> snd e1 <= snd e2;
-  (* a page recorded under key a is in the data tree or pending free under a later key (both views) *)
+  (* a page recorded under key a is in the data tree or pending free under a later key *)
   ro_k : forall e, In e (recs r) -> Sub (snd e) (cover_c (fst e) s);
-  ro_kw : forall e, In e (recs r) -> Sub (snd e) (cover_w (fst e) s);
   (* O5: for a valid savepoint at t the records after t name every page of the data lineage that is not
      part of the savepoint's version, and none that is *)
   ro_o5c : forall e x, In e (valid r) -> sp_pin s e x ->
            Sub (minus (cover_c (snd e) s) (ppages x)) (RC (snd e) r) /\ Dis (RC (snd e) r) (ppages x);
+  ro_b : keys_le (vid (lat s)) (dalloc r) /\ keys_le (vid (lat s)) (ualloc r);
+  ro_u : Sub (flat (ualloc r)) (unpers s) /\ Dis (flat (dalloc r)) (unpers s) /\ Dis (flat (ualloc r)) (pca s)
+}.
+
+Record RObsW (s : st) (r : arec) : Prop := mkRObsW {
+  (* the same two facts in the working view of the write transaction *)
+  ro_kw : forall e, In e (recs r) -> Sub (snd e) (cover_w (fst e) s);
   ro_o5w : forall e x, In e (valid r) -> ~ In (fst e) (winval r) -> sp_pin s e x ->
            Sub (minus (cover_w (snd e) s) (ppages x)) (RC (snd e) r ++ trk r);
   (* records name committed pages; the tracker names uncommitted pages of the data tree *)
@@ -243,13 +251,13 @@ Record RObs (s : st) (r : arec) : Prop := mkRObs {
   ro_t1 : Sub (trk r) (wdata s) /\ Sub (trk r) (wasc s);
   (* tracking is off only when no savepoint exists (and then the transaction is dirty) *)
   ro_t2 : trk_on r = false -> valid r = [] /\ trk r = [] /\ dirty r = true;
-  ro_b : keys_le (vid (lat s)) (dalloc r) /\ keys_le (vid (lat s)) (ualloc r);
-  ro_u : Sub (flat (ualloc r)) (unpers s) /\ Dis (flat (dalloc r)) (unpers s) /\ Dis (flat (ualloc r)) (pca s);
   ro_p : Sub (pca s) (alloc s) /\ Dis (pca s) (wasc s);
   ro_n : inw s = false -> trk r = [] /\ winval r = [] /\ trk_on r = true /\ dirty r = false;
   ro_d : dirty r = false -> Sub (wdata s ++ wdfr s) (vdata (lat s)) /\ wrest s = None /\ winval r = [] /\ trk_on r = true;
   ro_w2 : forall r0 e, wrest s = Some r0 -> In e (valid r) -> ~ In (fst e) (winval r) -> snd e <= r0
 }.
+
+Definition RObs (s : st) (r : arec) : Prop := RObsC s r /\ RObsW s r.
 
 (* ... plus a fact about the model's representation: the working DATA_FREED table is the committed one
    cut at the restored transaction *)
